@@ -466,6 +466,10 @@ func checkVBIDecoder(p *Prog, c *Check, fn *ssa.Function) bool {
 		if !isCont {
 			okAll = false
 			c.Bad("R9.3", cons+"#exits", posOf(p, terminator(e.from)), "a loop exit other than `byte & continuation-bit == 0` reaches a successful return: input that ends on a continuation byte (or is otherwise unterminated) is accepted")
+		} else if g.Guard != nil && !(g.Guard.Block().Dominates(e.from) && g.Guard.Block() != e.from) {
+			// the byte that terminates the integer must have passed the size guard of its own iteration
+			okAll = false
+			c.Bad("R9.3", cons+"#exits", posOf(p, terminator(e.from)), "the successful exit is taken before the size guard of the same iteration: a fifth byte without continuation bit is accepted")
 		}
 	}
 	_ = isAcc
